@@ -545,7 +545,11 @@ func (w *ecsWorld) send(id uint64, ev metadb.MessageEventAppend, kind string) {
 			r.Probe("finish_flushed_open_lanes")
 		}
 		// client view (not part of the verdict): acknowledged text that only lived in a lost cache
-		w.noteClientLoss(msg, after)
+		if !hasSnap {
+			w.noteClientLoss(msg, after)
+		} else {
+			delete(w.client, msg)
+		}
 		delete(w.cache[id], msg)
 	default: // close / error / cancel: durable, merged with the cached snapshot
 		if err != nil {
